@@ -11,3 +11,6 @@ import AxVerif.Model.Db
 import AxVerif.Driver.Hist
 import AxVerif.Thm.C04
 import AxVerif.Thm.C03
+import AxVerif.Model.Reopen
+import AxVerif.Driver.Reopen
+import AxVerif.Thm.C09
